@@ -164,10 +164,10 @@ const TBITS: u32 = 10; // (2^10 us) * 10^3 ns stays below DIV_BOUND (and below 1
 const IBITS: u32 = 6;
 
 fn base() -> Instant {
-    // an arbitrary origin: zero instant + up to ~136 years (whole seconds)
-    let z: Instant = unsafe { std::mem::zeroed() };
-    let s: u32 = kani::any();
-    z + Duration::new(s as u64, 0)
+    // the origin is the zero Instant: the limiter only ever uses differences of Instants, and a
+    // symbolic whole-second origin made `duration_since(..).as_nanos()` (u128 multiply of a
+    // symbolic seconds field that is provably 0) too expensive for CBMC (900 s timeouts)
+    unsafe { std::mem::zeroed() }
 }
 fn at(b: Instant, t: u32) -> Instant {
     b + Duration::new(0, t * 1000)
